@@ -22,6 +22,9 @@ Definition qceil (a : Q) : Z := Qceiling a.
 
 Definition MAXF : Q := 5000000.
 
+(* a natural-number index as a rational *)
+Definition idx (i : nat) : Q := inject_Z (Z.of_nat i).
+
 (* fold-based min / max over a non-empty list given by head and tail *)
 Definition qmin_list (x : Q) (l : list Q) : Q := fold_left pymin l x.
 Definition qmax_list (x : Q) (l : list Q) : Q := fold_left pymax l x.
